@@ -1,5 +1,7 @@
 pub mod c04;
+pub mod c05;
 pub mod c10;
+pub mod c11;
 pub mod c19;
 
 use crate::core::Prop;
@@ -7,7 +9,9 @@ use crate::core::Prop;
 pub fn by_id(id: &str) -> Option<Box<dyn Prop>> {
     match id {
         "C04" => Some(Box::new(c04::C04)),
+        "C05" => Some(Box::new(c05::C05)),
         "C10" => Some(Box::new(c10::C10)),
+        "C11" => Some(Box::new(c11::C11)),
         "C19" => Some(Box::new(c19::C19)),
         _ => None,
     }
